@@ -23,6 +23,25 @@ def handle : List String → String
     | none => "bad-op"
   | ["encode_block_wand_max_tf", x] => match bv 32 x with | some v => toString (encode_block_wand_max_tf v).toNat | none => "bad-op"
   | ["decode_block_wand_max_tf", x] => match bv 8 x with | some v => toString (decode_block_wand_max_tf v).toNat | none => "bad-op"
+  | ["tinyset_singleton", e] => match bv 32 e with | some v => toString (tinyset_singleton v).toNat | none => "bad-op"
+  | ["tinyset_insert", x, e] =>
+    match bv 64 x, bv 32 e with | some s, some v => toString (tinyset_insert s v).toNat | _, _ => "bad-op"
+  | ["tinyset_remove", x, e] =>
+    match bv 64 x, bv 32 e with | some s, some v => toString (tinyset_remove s v).toNat | _, _ => "bad-op"
+  | ["tinyset_contains", x, e] =>
+    match bv 64 x, bv 32 e with
+    | some s, some v => if tinyset_contains s v then "1" else "0"
+    | _, _ => "bad-op"
+  | ["tinyset_range_lower", e] => match bv 32 e with | some v => toString (tinyset_range_lower v).toNat | none => "bad-op"
+  | ["tinyset_range_greater_or_equal", e] =>
+    match bv 32 e with | some v => toString (tinyset_range_greater_or_equal v).toNat | none => "bad-op"
+  | ["tinyset_pop_lowest", x] =>
+    match bv 64 x with
+    | some s =>
+      let r := tinyset_pop_lowest s
+      (match r.1 with | some l => toString l.toNat | none => "none") ++ "," ++ toString r.2.toNat
+    | none => "bad-op"
+  | ["tinyset_full"] => toString tinyset_full.toNat
   | _ => "bad-op"
 
 end TantivyModel.Driver.PureFns
